@@ -26,9 +26,9 @@ META = {
                   "depth 1-2, failing twins, second executions on the same backend and an edit that "
                   "repairs the failing task; recorded executions validated by TLC against the errors "
                   "clauses of the contract.",
-    "level_note": "Errors handled by catch are outside this property (the statement conditions on 'no "
-                  "enclosing catch'); a second family puts the same failing call inside AND outside a catch "
-                  "beneath one job and lets the explicit semantics (Eval.tla) decide that the outside use raises.",
+    "level_note": "Errors handled by catch are outside this property (the statement conditions on 'no enclosing "
+                  "catch'); a second family puts one failing call inside AND outside a catch beneath one job (and a "
+                  "task error that cannot be pickled) and lets the explicit semantics (Eval.tla) decide that run() raises.",
     "technique": "explicit TLA+ as-built scheduler model + TLC invariants; contract trace validation of "
                  "driven executions",
     "rule": "a case is (program, plan, complete schedule); distinct by program and choice sequence; "
